@@ -133,7 +133,9 @@ inductive Subtable where
   | gpos21 (pairs : List ((Nat × Nat) × Option PairAdj))
   | gpos22 (cov : GSet) (cls1 cls2 : ClassDef) (adj : List (List (Option PairAdj)))
   | gpos31 (cov : Cov) (recs : List EntryExit)
-  | gpos41 (markCov baseCov : Cov) (marks : List MarkRec) (bases : List (List Anchor))
+  /-- `gclass` is the GDEF glyph class definition `Gpos4_1.apply` reads through `ctx.gdef` (to skip
+  marks when it looks for the base glyph); the driver copies it from the GDEF table of the case -/
+  | gpos41 (markCov baseCov : Cov) (marks : List MarkRec) (bases : List (List Anchor)) (gclass : ClassDef)
   | gpos61 (mark1Cov mark2Cov : Cov) (marks1 : List MarkRec) (marks2 : List (List Anchor))
 deriving Repr, Inhabited
 
@@ -145,6 +147,15 @@ structure Lookup where
 deriving Repr, Inhabited
 
 abbrev LookupList := List Lookup
+
+/-- the lookup list as `Context.Apply` sees it together with the GDEF table of the context: every
+GPOS 4.1 subtable carries the glyph class definition it will read through `ctx.gdef` -/
+def Subtable.withGdefClasses (gc : ClassDef) : Subtable → Subtable
+  | .gpos41 a b c d _ => .gpos41 a b c d gc
+  | s => s
+
+def resolveLL (gc : ClassDef) (ll : LookupList) : LookupList :=
+  ll.map fun lk => { lk with subtables := lk.subtables.map (Subtable.withGdefClasses gc) }
 
 /-! ## the filter (filter.go) -/
 
